@@ -133,7 +133,7 @@ fn shard(args: &Args) {
             continue;
         }
         let first = first.unwrap();
-        let mut d = model_diff(&case, &first);
+        let mut d = model_diff(kind, &case, &first);
         if d.is_none() && idx % 3 == 0 {
             // a second materialisation: other commits (created in another order), same id order
             let oids2 = w.materialise(&g, idx + seed() * 7919 + 1_000_000_007, true);
@@ -142,7 +142,7 @@ fn shard(args: &Args) {
             w.present(&rr);
             npres += 1;
             d = match w.eval(&labels2, false) {
-                Ok(Some(o)) => model_diff(&case, &o),
+                Ok(Some(o)) => model_diff(kind, &case, &o),
                 other => Some(format!("second materialisation: {:?}", other.map(|o| o.map(|o| o.to_json())))),
             };
         }
@@ -196,12 +196,9 @@ fn record(args: &Args) {
             let via_list = rng.below(4) == 0;
             let view = match w.eval(&labels, via_list) {
                 // payload strings carry the creation-time labels: map the title back through `rank`
-                Ok(Some(o)) => {
-                    let lww = if o.lww() > 0 { rank[o.lww() as usize] as i64 } else { o.lww() };
-                    json!({"log": o.log(), "lww": lww, "hist": o.hist, "tips": o.tips})
-                }
-                Ok(None) => json!({"log": [], "lww": -2, "hist": [], "tips": []}),
-                Err(e) => json!({"log": [], "lww": -3, "hist": [], "tips": [], "error": e}),
+                Ok(Some(o)) => view_json(&o, &rank),
+                Ok(None) => json!({"log": [], "comments": [], "lww": -2, "labels": -2, "hist": [], "tips": []}),
+                Err(e) => json!({"log": [], "comments": [], "lww": -3, "labels": -3, "hist": [], "tips": [], "error": e}),
             };
             let mut r = g.to_json();
             r["gid"] = json!(gid);
